@@ -68,6 +68,7 @@ type simEth struct {
 	faults   map[string]int // method -> number of next calls that fail
 	subs     []*simSub
 	gsKeys   []common.Address
+	afterReceipt map[common.Hash]func() // one-shot: run (under the lock) right after the receipt of that transaction was answered
 	lag      uint64 // finalized head = head - lag (never moves backwards)
 	final    uint64
 	drain    func(n int) // called under the lock before a request is recorded: n = requests recorded so far
@@ -87,7 +88,7 @@ func newSimEth(contract common.Address) *simEth {
 	if err != nil {
 		panic(err)
 	}
-	return &simEth{head: 100, fork: map[uint64]int{}, txs: map[common.Hash]*simTx{}, contract: contract, parsed: p, faults: map[string]int{}, gsKeys: []common.Address{{1}}}
+	return &simEth{head: 100, fork: map[uint64]int{}, txs: map[common.Hash]*simTx{}, contract: contract, parsed: p, faults: map[string]int{}, afterReceipt: map[common.Hash]func(){}, gsKeys: []common.Address{{1}}}
 }
 
 func (s *simEth) blockHash(n uint64) common.Hash {
@@ -192,10 +193,15 @@ func (a *ethAPI) GetTransactionReceipt(ctx context.Context, h common.Hash) (map[
 	if logs == nil {
 		logs = []map[string]interface{}{}
 	}
-	return map[string]interface{}{
+	resp := map[string]interface{}{
 		"status": hexutil.EncodeUint64(t.Status), "cumulativeGasUsed": "0x1", "logsBloom": hexutil.Bytes(make([]byte, 256)), "logs": logs,
 		"transactionHash": t.Hash, "gasUsed": "0x1", "blockHash": t.BlockHash, "blockNumber": hexutil.EncodeUint64(t.Block), "transactionIndex": "0x0", "contractAddress": nil, "type": "0x0",
-	}, nil
+	}
+	if f := s.afterReceipt[h]; f != nil {
+		delete(s.afterReceipt, h)
+		f() // the chain moves on between this answer and the watcher's next question
+	}
+	return resp, nil
 }
 
 func (a *ethAPI) Call(ctx context.Context, args map[string]interface{}, block interface{}) (hexutil.Bytes, error) {
